@@ -116,6 +116,10 @@ var hostileSeeds = []string{
 	"x\n//# sourceMappingURL=data:application/json;base64,eyJ2ZXJzaW9uIjozLCJzb3VyY2VzIjpbImEuanMiXSwibWFwcGluZ3MiOiJBQUFBLGdnZ2dnZ2dnZ2dnZ0EifQ==", "x\n//# sourceMappingURL=data:application/json;base64,bnVsbA==", "a{}\n/*# sourceMappingURL=data:application/json;base64,eyJ2ZXJzaW9uIjozLCJzb3VyY2VzIjpbMV0sIm1hcHBpbmdzIjoiOzs7In0= */",
 }
 
+// The engine gathers baseline coverage for every seed through its single coordinator (≈50 inputs/s for a
+// binary of this size), so the seed set is a sample: ~60 snippets per loader (every k-th, k derived from the
+// pool size) plus the hostile constants; the cached corpus of earlier campaigns is pruned to the newest
+// entries before a campaign starts (see pruneFuzzCache).
 func addTransformSeeds(f *testing.F) {
 	c, err := corpus.Load(vdrv.RepoDir(), vdrv.Root())
 	if err != nil {
@@ -123,7 +127,13 @@ func addTransformSeeds(f *testing.F) {
 	}
 	i := uint32(0)
 	for li, l := range []string{"js", "jsx", "ts", "tsx", "css", "json"} {
-		for _, s := range c.Snippets[l] {
+		pool := c.Snippets[l]
+		step := len(pool) / 60
+		if step < 1 {
+			step = 1
+		}
+		for k := 0; k < len(pool); k += step {
+			s := pool[k]
 			if len(s) > 2048 {
 				continue
 			}
@@ -142,10 +152,30 @@ func addTransformSeeds(f *testing.F) {
 		}
 	}
 	for k, s := range hostileSeeds {
-		for ld := uint32(0); ld < 7; ld++ {
-			f.Add([]byte(s), uint32(k)*40503<<3|ld)
-			f.Add([]byte(s), 1<<bSourcemap|ld)
+		f.Add([]byte(s), uint32(k)*40503<<3|uint32(k%7))
+		f.Add([]byte(s), 1<<bSourcemap|uint32((k+3)%7))
+	}
+}
+
+// pruneFuzzCache keeps the newest `keep` corpus entries of a target.
+func pruneFuzzCache(cacheDir, target string, keep int) {
+	files, _ := filepath.Glob(filepath.Join(cacheDir, target, "*"))
+	if len(files) <= keep {
+		return
+	}
+	type fi struct {
+		p string
+		t time.Time
+	}
+	var l []fi
+	for _, p := range files {
+		if st, err := os.Stat(p); err == nil {
+			l = append(l, fi{p, st.ModTime()})
 		}
+	}
+	sort.Slice(l, func(a, b int) bool { return l[a].t.After(l[b].t) })
+	for _, e := range l[keep:] {
+		os.Remove(e.p)
 	}
 }
 
@@ -177,10 +207,14 @@ func FuzzBuildConfig(f *testing.F) {
 	ts := append([]string{`{}`, `{"extends":"./tsconfig.json"}`, `{"extends":["./tsconfig.base.json","./missing"],"compilerOptions":{"paths":{"@alias/*":["./lib/*"]},"baseUrl":"."}}`, `{"compilerOptions":{"paths":{"*":[]},"jsx":1}}`}, c.TSConfig...)
 	pj := append([]string{`{}`, `{"exports":[]}`, `{"exports":{".":[]},"imports":{"#int":null,"#int/*":"./lib/*.ts"}}`, `{"browser":{"./index.js":false},"main":[],"sideEffects":[1]}`, `{"exports":{"./*":{"import":["./lib/*.js",null]}},"type":"module"}`, `{"main":"./main","module":"./module.mjs","browser":"./browser.js"}`}, c.PkgJSON...)
 	for i, p := range pj {
-		f.Add([]byte(p), []byte(ts[i%len(ts)]), []byte("export {}"), uint32(i)*2654435761)
+		if i < 6 || i%2 == 0 {
+			f.Add([]byte(p), []byte(ts[i%len(ts)]), []byte("export {}"), uint32(i)*2654435761)
+		}
 	}
 	for i, tcfg := range ts {
-		f.Add([]byte(pj[i%len(pj)]), []byte(tcfg), []byte("import 'pkg/dir'"), uint32(i)*40503)
+		if i < 4 || i%2 == 0 {
+			f.Add([]byte(pj[i%len(pj)]), []byte(tcfg), []byte("import 'pkg/dir'"), uint32(i)*40503)
+		}
 	}
 	f.Fuzz(func(t *testing.T, pkgjson, tsconfig, src []byte, optBits uint32) {
 		if len(pkgjson)+len(tsconfig)+len(src) > maxInput {
@@ -257,6 +291,7 @@ func runCampaign(t *testing.T, harness, cacheDir string, c *campaign) bool {
 	defer os.RemoveAll(statsDir)
 	pkgDir := filepath.Join(harness, "props", "c16")
 	engineDir := filepath.Join(pkgDir, "testdata", "fuzz", c.Target)
+	pruneFuzzCache(cacheDir, c.Target, 1200)
 	deadline := time.Now().Add(c.Budget)
 	start := time.Now()
 	defer func() { c.Elapsed = time.Since(start) }()
@@ -268,7 +303,7 @@ func runCampaign(t *testing.T, harness, cacheDir string, c *campaign) bool {
 			args = append(args, "-modfile="+filepath.Join(vdrv.Root(), ".out", "alt", tag, "go.mod"))
 		}
 		args = append(args, "-tags", "verif", "-run", "^$", "-fuzz", "^"+c.Target+"$", "-fuzztime", fmt.Sprintf("%ds", int(time.Until(deadline).Seconds())),
-			"-fuzzminimizetime", "0", "-parallel", "16", "-test.fuzzcachedir", cacheDir, "./props/c16")
+			"-fuzzminimizetime", "0", "-parallel", "16", "./props/c16", "-test.fuzzcachedir="+cacheDir)
 		cmd := exec.Command("go", args...)
 		cmd.Dir = harness
 		env := []string{}
@@ -277,7 +312,7 @@ func runCampaign(t *testing.T, harness, cacheDir string, c *campaign) bool {
 				env = append(env, e)
 			}
 		}
-		cmd.Env = append(env, "VERIF_C16_ROLE=fuzz", "VERIF_C16_FUZZ_OUT="+outDir, "VERIF_C16_FUZZ_STATS="+statsDir)
+		cmd.Env = append(env, "GOMAXPROCS=2", "VERIF_C16_ROLE=fuzz", "VERIF_C16_FUZZ_OUT="+outDir, "VERIF_C16_FUZZ_STATS="+statsDir)
 		pr, pw := io.Pipe()
 		cmd.Stdout, cmd.Stderr = pw, pw
 		var log bytes.Buffer
